@@ -1,12 +1,143 @@
-(* Properties/C05.v — Simpson / trapezoid / Romberg quadrature.
-   Statements only; every proof is `exact` of a lemma of Proofs/Quad*.v. *)
-From Coq Require Import ZArith NArith List Reals Lia.
-From SV Require Import Base.Num Base.Outcome Model.Poly Model.Quad Proofs.Quad.
-Import ListNotations.
+(* Properties/C05.v — Simpson / trapezoid / Romberg quadrature
+   (spindalis_core/src/integrals/univariate_definite.rs, repaired tree).
+   Statements only; every proof is `exact` of a lemma of Proofs/Quad*.v.
 
-(* No panic, every instance of Num (the float instance in particular), every cap
-   (also caps above 64, where the checked power fails) and every tolerance.
-   Assumption on the integrand: it never panics itself; it may return errors. *)
+   The integrators are modelled generically over the integrand's evaluation
+   function  f : T -> res T  (Model/Quad.v); [s_eval_univariate p] and
+   [i_eval_univariate p] of Model/Poly.v are the two instances that exist in
+   the crate.  Exactness statements are about the R instance (exact arithmetic;
+   rounding is measured by the correspondence check); the no-panic statements
+   hold for every instance of Num, the float instance in particular.
+   "f is a cubic" is stated extensionally (forall x, f x = Ok (a0 + a1 x + a2 x^2
+   + a3 x^3)), which covers every real cubic and both polynomial types
+   ([c05_simpson_exact_simple], [c05_exact_inter]).  RInt is Coquelicot's
+   Riemann integral. *)
+From Coq Require Import ZArith NArith List Reals Lia Floats.
+From Coquelicot Require Import Coquelicot.
+From SV Require Import Base.Num Base.Outcome Model.Poly Model.Quad
+  Proofs.Quad Proofs.QuadSimpson Proofs.QuadRomberg Proofs.QuadRInt.
+Import ListNotations.
+Local Open Scope R_scope.
+
+(* ---- Simpson: exact for every cubic, every interval (also reversed and empty) and
+   every n >= 2: even (1/3 rule), odd (3/8 rule spliced on the last three
+   segments), and 3 (3/8 rule alone) --------------------------------------------- *)
+Theorem c05_simpson_exact : forall (f : R -> res R) (a0 a1 a2 a3 : R),
+  (forall x, f x = Ok (a0 + a1 * x + a2 * x ^ 2 + a3 * x ^ 3)) ->
+  forall (a b : R) (n : N), (2 <= n)%N ->
+  definite_integral f a b n = Ok (RInt (fun x => a0 + a1 * x + a2 * x ^ 2 + a3 * x ^ 3) a b).
+Proof. exact Proofs.QuadRInt.c05_simpson_exact_RInt. Qed.
+Check c05_simpson_exact : forall (f : R -> res R) (a0 a1 a2 a3 : R),
+  (forall x, f x = Ok (a0 + a1 * x + a2 * x ^ 2 + a3 * x ^ 3)) ->
+  forall (a b : R) (n : N), (2 <= n)%N ->
+  definite_integral f a b n = Ok (RInt (fun x => a0 + a1 * x + a2 * x ^ 2 + a3 * x ^ 3) a b).
+Print Assumptions c05_simpson_exact.
+
+(* SimplePolynomial with at most 4 coefficients: the value is F(b) - F(a), F the
+   model's own antiderivative polynomial (indefinite_integral_simple) *)
+Theorem c05_simpson_exact_simple : forall (p : spoly R), (length (s_coefs p) <= 4)%nat ->
+  forall (a b : R) (n : N), (2 <= n)%N ->
+  definite_integral (s_eval_univariate p) a b n =
+  Ok (eval_simple (simple_integral p) b - eval_simple (simple_integral p) a).
+Proof. exact Proofs.QuadSimpson.c05_simpson_exact. Qed.
+Check c05_simpson_exact_simple : forall (p : spoly R), (length (s_coefs p) <= 4)%nat ->
+  forall (a b : R) (n : N), (2 <= n)%N ->
+  definite_integral (s_eval_univariate p) a b n =
+  Ok (eval_simple (simple_integral p) b - eval_simple (simple_integral p) a).
+Print Assumptions c05_simpson_exact_simple.
+
+(* ---- one segment: the trapezoid rule, exact for degree <= 1 ---------------------- *)
+Theorem c05_trapezoid_exact : forall (f : R -> res R) (a0 a1 : R),
+  (forall x, f x = Ok (a0 + a1 * x)) ->
+  forall a b : R, definite_integral f a b 1 = Ok (RInt (fun x => a0 + a1 * x) a b).
+Proof. exact Proofs.QuadRInt.c05_trapezoid_exact_RInt. Qed.
+Check c05_trapezoid_exact : forall (f : R -> res R) (a0 a1 : R),
+  (forall x, f x = Ok (a0 + a1 * x)) ->
+  forall a b : R, definite_integral f a b 1 = Ok (RInt (fun x => a0 + a1 * x) a b).
+Print Assumptions c05_trapezoid_exact.
+
+Theorem c05_trapezoid_exact_simple : forall (p : spoly R), (length (s_coefs p) <= 2)%nat ->
+  forall a b : R,
+  definite_integral (s_eval_univariate p) a b 1 =
+  Ok (eval_simple (simple_integral p) b - eval_simple (simple_integral p) a).
+Proof. exact Proofs.QuadSimpson.c05_trapezoid_exact. Qed.
+Check c05_trapezoid_exact_simple : forall (p : spoly R), (length (s_coefs p) <= 2)%nat ->
+  forall a b : R,
+  definite_integral (s_eval_univariate p) a b 1 =
+  Ok (eval_simple (simple_integral p) b - eval_simple (simple_integral p) a).
+Print Assumptions c05_trapezoid_exact_simple.
+
+Theorem c05_one_segment_is_trapezoid : forall (f : R -> R) (a b : R),
+  definite_integral (fun x => Ok (f x)) a b 1 = Ok ((b - a) * (f a + f b) / 2).
+Proof. exact Proofs.QuadSimpson.c05_one_segment_is_trapezoid. Qed.
+Check c05_one_segment_is_trapezoid : forall (f : R -> R) (a b : R),
+  definite_integral (fun x => Ok (f x)) a b 1 = Ok ((b - a) * (f a + f b) / 2).
+Print Assumptions c05_one_segment_is_trapezoid.
+
+(* ---- Romberg: whatever value is returned for a cubic is the exact integral, for
+   every cap and every tolerance ----------------------------------------------------- *)
+Theorem c05_romberg_exact : forall (f : R -> res R) (a0 a1 a2 a3 : R),
+  (forall x, f x = Ok (a0 + a1 * x + a2 * x ^ 2 + a3 * x ^ 3)) ->
+  forall (a b : R) (cap : N) (tol v : R),
+  romberg f a b cap tol = Ok v ->
+  v = RInt (fun x => a0 + a1 * x + a2 * x ^ 2 + a3 * x ^ 3) a b.
+Proof. exact Proofs.QuadRInt.c05_romberg_exact_RInt. Qed.
+Check c05_romberg_exact : forall (f : R -> res R) (a0 a1 a2 a3 : R),
+  (forall x, f x = Ok (a0 + a1 * x + a2 * x ^ 2 + a3 * x ^ 3)) ->
+  forall (a b : R) (cap : N) (tol v : R),
+  romberg f a b cap tol = Ok v ->
+  v = RInt (fun x => a0 + a1 * x + a2 * x ^ 2 + a3 * x ^ 3) a b.
+Print Assumptions c05_romberg_exact.
+
+Theorem c05_romberg_exact_simple : forall (p : spoly R), (length (s_coefs p) <= 4)%nat ->
+  forall (a b : R) (cap : N) (tol v : R),
+  romberg (s_eval_univariate p) a b cap tol = Ok v ->
+  v = eval_simple (simple_integral p) b - eval_simple (simple_integral p) a.
+Proof. exact Proofs.QuadRomberg.c05_romberg_exact. Qed.
+Check c05_romberg_exact_simple : forall (p : spoly R), (length (s_coefs p) <= 4)%nat ->
+  forall (a b : R) (cap : N) (tol v : R),
+  romberg (s_eval_univariate p) a b cap tol = Ok v ->
+  v = eval_simple (simple_integral p) b - eval_simple (simple_integral p) a.
+Print Assumptions c05_romberg_exact_simple.
+
+(* ... and (exact arithmetic) a value IS returned as soon as three iterations are
+   allowed and the tolerance is not negative: [c05_romberg_exact] is not vacuous *)
+Theorem c05_romberg_converges : forall (f : R -> res R) (a0 a1 a2 a3 : R),
+  (forall x, f x = Ok (a0 + a1 * x + a2 * x ^ 2 + a3 * x ^ 3)) ->
+  forall (a b : R) (cap : N) (tol : R), (3 <= cap)%N -> 0 <= tol ->
+  romberg f a b cap tol = Ok (RInt (fun x => a0 + a1 * x + a2 * x ^ 2 + a3 * x ^ 3) a b).
+Proof. exact Proofs.QuadRInt.c05_romberg_converges_RInt. Qed.
+Check c05_romberg_converges : forall (f : R -> res R) (a0 a1 a2 a3 : R),
+  (forall x, f x = Ok (a0 + a1 * x + a2 * x ^ 2 + a3 * x ^ 3)) ->
+  forall (a b : R) (cap : N) (tol : R), (3 <= cap)%N -> 0 <= tol ->
+  romberg f a b cap tol = Ok (RInt (fun x => a0 + a1 * x + a2 * x ^ 2 + a3 * x ^ 3) a b).
+Print Assumptions c05_romberg_converges.
+
+(* both clauses for the second polynomial type: the IntermediatePolynomial
+   c3 v^3 + c2 v^2 + c1 v + c0 (terms in the parser's order, evaluated with powf) *)
+Theorem c05_exact_inter : forall (v : name) (c0 c1 c2 c3 a b : R),
+  (forall n : N, (2 <= n)%N ->
+     definite_integral (i_eval_univariate (icubic v c0 c1 c2 c3)) a b n =
+     Ok (RInt (fun x => c0 + c1 * x + c2 * x ^ 2 + c3 * x ^ 3) a b)) /\
+  (forall (cap : N) (tol w : R),
+     romberg (i_eval_univariate (icubic v c0 c1 c2 c3)) a b cap tol = Ok w ->
+     w = RInt (fun x => c0 + c1 * x + c2 * x ^ 2 + c3 * x ^ 3) a b).
+Proof. exact Proofs.QuadRInt.c05_exact_inter. Qed.
+Check c05_exact_inter : forall (v : name) (c0 c1 c2 c3 a b : R),
+  (forall n : N, (2 <= n)%N ->
+     definite_integral (i_eval_univariate (icubic v c0 c1 c2 c3)) a b n =
+     Ok (RInt (fun x => c0 + c1 * x + c2 * x ^ 2 + c3 * x ^ 3) a b)) /\
+  (forall (cap : N) (tol w : R),
+     romberg (i_eval_univariate (icubic v c0 c1 c2 c3)) a b cap tol = Ok w ->
+     w = RInt (fun x => c0 + c1 * x + c2 * x ^ 2 + c3 * x ^ 3) a b).
+Print Assumptions c05_exact_inter.
+
+(* ---- no panic: every instance of Num (the float instance in particular), every
+   cap — also caps above 64, where 2_usize.checked_pow fails — and every tolerance
+   (NaN included).  "Never panics" is a statement about the model: table reads and
+   writes are bounds-checked ([Panic WIndex]), the fuel of the loop is checked
+   ([Panic WFuel]).  Assumption on the integrand: it never panics itself (it may
+   return errors, which are propagated). ------------------------------------------- *)
 Theorem c05_romberg_total : forall (T : Type) (NT : Num T) (f : T -> res T),
   (forall x, no_panic (f x)) ->
   forall (a b : T) (cap : N) (tol : T), no_panic (romberg f a b cap tol).
@@ -16,7 +147,7 @@ Check c05_romberg_total : forall (T : Type) (NT : Num T) (f : T -> res T),
   forall (a b : T) (cap : N) (tol : T), no_panic (romberg f a b cap tol).
 Print Assumptions c05_romberg_total.
 
-(* ... which both polynomial types satisfy, unconditionally *)
+(* ... which both polynomial types satisfy unconditionally *)
 Theorem c05_romberg_total_polys : forall (T : Type) (NT : Num T) (a b : T) (cap : N) (tol : T),
   (forall p : spoly T, no_panic (romberg (s_eval_univariate p) a b cap tol)) /\
   (forall p : ipoly T, no_panic (romberg (i_eval_univariate p) a b cap tol)).
@@ -26,6 +157,8 @@ Check c05_romberg_total_polys : forall (T : Type) (NT : Num T) (a b : T) (cap : 
   (forall p : ipoly T, no_panic (romberg (i_eval_univariate p) a b cap tol)).
 Print Assumptions c05_romberg_total_polys.
 
+(* definite_integral never panics either, for every segment count (0 included):
+   `remaining_segments -= 3` is reached only for odd counts >= 3 *)
 Theorem c05_simpson_total : forall (T : Type) (NT : Num T) (f : T -> res T),
   (forall x, no_panic (f x)) ->
   forall (a b : T) (n : N), no_panic (definite_integral f a b n).
@@ -34,3 +167,82 @@ Check c05_simpson_total : forall (T : Type) (NT : Num T) (f : T -> res T),
   (forall x, no_panic (f x)) ->
   forall (a b : T) (n : N), no_panic (definite_integral f a b n).
 Print Assumptions c05_simpson_total.
+
+(* ---- the error clause.  FULL STATEMENT (not proved; checked by the oracle of
+   tools/props/c05.py for degree 4..8):
+
+     forall (p : spoly R) (a b : R) (n : N) (M4 : R), (2 <= n)%N ->
+       (forall x, Rmin a b <= x <= Rmax a b ->
+                  Rabs (Derive_n (eval_simple p) 4 x) <= M4) ->
+       exists v, definite_integral (s_eval_univariate p) a b n = Ok v /\
+         Rabs (v - RInt (eval_simple p) a b)
+           <= Rabs (b - a) * ((b - a) / IZR (Z.of_N n)) ^ 4 * M4 / 80.
+
+   What is proved is the degree-4 case (f'''' = 24 a4 is constant), for every n >= 2
+   including the odd counts where the 3/8 panel is spliced in, together with the
+   fact that for n = 3 the bound is attained: the constant 1/80 is the best possible.
+   Missing for degree 5..8: a per-panel remainder argument (Peano kernel or
+   Taylor-Lagrange with a mean-value step) instead of the closed form used here. *)
+Theorem c05_simpson_error_partial : forall (f : R -> res R) (a0 a1 a2 a3 a4 : R),
+  (forall x, f x = Ok (a0 + a1 * x + a2 * x ^ 2 + a3 * x ^ 3 + a4 * x ^ 4)) ->
+  forall (a b : R) (n : N), (2 <= n)%N ->
+  exists v, definite_integral f a b n = Ok v /\
+    Rabs (v - RInt (fun x => a0 + a1 * x + a2 * x ^ 2 + a3 * x ^ 3 + a4 * x ^ 4) a b) <=
+    Rabs (b - a) * ((b - a) / IZR (Z.of_N n)) ^ 4 * Rabs (24 * a4) / 80.
+Proof. exact Proofs.QuadRInt.c05_simpson_error_quartic_RInt. Qed.
+Check c05_simpson_error_partial : forall (f : R -> res R) (a0 a1 a2 a3 a4 : R),
+  (forall x, f x = Ok (a0 + a1 * x + a2 * x ^ 2 + a3 * x ^ 3 + a4 * x ^ 4)) ->
+  forall (a b : R) (n : N), (2 <= n)%N ->
+  exists v, definite_integral f a b n = Ok v /\
+    Rabs (v - RInt (fun x => a0 + a1 * x + a2 * x ^ 2 + a3 * x ^ 3 + a4 * x ^ 4) a b) <=
+    Rabs (b - a) * ((b - a) / IZR (Z.of_N n)) ^ 4 * Rabs (24 * a4) / 80.
+Print Assumptions c05_simpson_error_partial.
+
+Theorem c05_simpson_error_tight_n3 : forall (f : R -> res R) (a0 a1 a2 a3 a4 : R),
+  (forall x, f x = Ok (a0 + a1 * x + a2 * x ^ 2 + a3 * x ^ 3 + a4 * x ^ 4)) ->
+  forall (a b : R),
+  exists v, definite_integral f a b 3 = Ok v /\
+    Rabs (v - RInt (fun x => a0 + a1 * x + a2 * x ^ 2 + a3 * x ^ 3 + a4 * x ^ 4) a b) =
+    Rabs (b - a) * ((b - a) / 3) ^ 4 * Rabs (24 * a4) / 80.
+Proof. exact Proofs.QuadRInt.c05_simpson_error_tight_n3_RInt. Qed.
+Check c05_simpson_error_tight_n3 : forall (f : R -> res R) (a0 a1 a2 a3 a4 : R),
+  (forall x, f x = Ok (a0 + a1 * x + a2 * x ^ 2 + a3 * x ^ 3 + a4 * x ^ 4)) ->
+  forall (a b : R),
+  exists v, definite_integral f a b 3 = Ok v /\
+    Rabs (v - RInt (fun x => a0 + a1 * x + a2 * x ^ 2 + a3 * x ^ 3 + a4 * x ^ 4) a b) =
+    Rabs (b - a) * ((b - a) / 3) ^ 4 * Rabs (24 * a4) / 80.
+Print Assumptions c05_simpson_error_tight_n3.
+
+(* ---- non-vacuity ------------------------------------------------------------------- *)
+(* the hypothesis "f is a cubic" is met by both polynomial types, and the hypotheses
+   of the SimplePolynomial forms by a concrete polynomial *)
+Example c05_nonvacuous_simple :
+  let p : spoly R := {| s_coefs := [1; 2; 3; 4]; s_var := Some 120%N |} in
+  (length (s_coefs p) <= 4)%nat /\ (2 <= 5)%N /\
+  definite_integral (s_eval_univariate p) 0 1 5 =
+    Ok (eval_simple (simple_integral p) 1 - eval_simple (simple_integral p) 0).
+Proof.
+  cbv zeta. split; [cbn; lia|]. split; [lia|].
+  apply Proofs.QuadSimpson.c05_simpson_exact; [cbn; lia|lia].
+Qed.
+
+Example c05_nonvacuous_inter : forall x : R,
+  i_eval_univariate (icubic [120%N] 1 2 3 4) x = Ok (1 + 2 * x + 3 * x ^ 2 + 4 * x ^ 3).
+Proof. intro x. apply Proofs.QuadSimpson.i_eval_cubic. Qed.
+
+(* "romberg ... = Ok v" happens: exact arithmetic, cap 3, tolerance 0 *)
+Example c05_nonvacuous_romberg :
+  exists v, romberg (i_eval_univariate (icubic [120%N] 1 2 3 4)) 0 1 3 0 = Ok v.
+Proof.
+  eexists. apply Proofs.QuadRomberg.c05_romberg_converges_cubic; [|lia|apply Rle_refl].
+  intro x. apply Proofs.QuadSimpson.i_eval_cubic.
+Qed.
+
+(* the float instance that is run against the crate returns a value, an error, and
+   reaches the checked-power exit (cap above 64, tolerance NaN), without panicking *)
+Example c05_float_runs :
+  let p : spoly float := {| s_coefs := [1; 2; 3; 4]%float; s_var := Some 120%N |} in
+  is_ok (romberg (s_eval_univariate p) 0%float 1%float 8 0x1p-20%float) = true /\
+  romberg (s_eval_univariate p) 0%float 1%float 2 0%float = Err EMaxIterationsReached /\
+  is_ok (definite_integral (s_eval_univariate p) 0%float 1%float 7) = true.
+Proof. vm_compute. repeat split. Qed.
